@@ -35,6 +35,7 @@ class Prop:
     trusted_base = []
     nontrivial_rule = ''
     search_scale = 20
+    search_budget_s = 600     # wall-clock budget of the widened search after a broken proof / correspondence
 
     def generate(self, seed, tier, scale=1):
         raise NotImplementedError
@@ -57,6 +58,9 @@ class Prop:
         """are implementation line `a` and model line `b` the same observation?"""
         if b == 'ERR':          # the specification demands a refusal, whatever the exception class
             return a.startswith('ERR')
+        if b.startswith('UB') and a.startswith('CRASH'):
+            return True             # the model predicts undefined behaviour and the sanitizers saw it
+
         return self.canon(a) == self.canon(b)
 
     def nontrivial(self, case, model_lines):
@@ -356,7 +360,7 @@ def run_check(prop, tier, seed, repo='/repo'):
                 for f in fails:
                     if report_fail(*f):
                         found = True
-                if found or time.time() - t0 > 1500:
+                if found or time.time() - t0 > prop.search_budget_s:
                     break
         if not found and not (out.known and proofs_ok and corr_ok):
             nrep[0] += 1
@@ -401,6 +405,7 @@ def run_check(prop, tier, seed, repo='/repo'):
             'samples': out.samples,
             'traces_validated_against_impl': out.validated,
             'disagreements_checked': len(out.mismatches),
+            'first_disagreements': [{'case': c.lines, 'implementation': il, 'model': ml} for (c, il, ml) in out.mismatches[:5]],
             'input_distribution': out.dist,
             'implementation_crashes': [c[1] for c in out.crashes][:20],
             'searched_after_break': searched,
